@@ -216,11 +216,12 @@ structure PSys where
   sh   : Shared := {}
   rest : List PubStep          -- the publisher's remaining steps
   thr  : Nat → SenderSt := fun _ => {}
-  log  : List (Nat × Nat) := []   -- (epoch, seq) of every record sealed by a sender
+  log  : List (Nat × Nat) := []   -- (epoch, seq) of every record sealed by a sender or as the close alert
 
 inductive PAct where
   | pub
   | snd (t : Nat)
+  | alert            -- the run loop's close_notify: `write_seq.fetch_add(1)` once it has published (same thread as `pub`)
 deriving Repr
 
 def applyPub (E S : Nat) (sh : Shared) : PubStep → Shared
@@ -242,6 +243,13 @@ def PSys.step (E S : Nat) (s : PSys) : PAct → PSys
     else { s with thr := setThr s.thr t { (s.thr t) with pc := 0 },
                   log := ((s.thr t).epoch, s.sh.wSeq) :: s.log,
                   sh := { s.sh with wSeq := s.sh.wSeq + 1 } }
+
+  | .alert =>
+    -- `if ctx.epoch > 0 && write_epoch == ctx.epoch { write_seq.fetch_add(1) }`: the run loop itself stored
+    -- `write_epoch`, so after the publication the guard holds; the alert record carries the context's epoch
+    match s.rest with
+    | [] => { s with log := (E, s.sh.wSeq) :: s.log, sh := { s.sh with wSeq := s.sh.wSeq + 1 } }
+    | _ :: _ => s
 
 def PSys.run (E S : Nat) (s : PSys) (acts : List PAct) : PSys := acts.foldl (PSys.step E S) s
 
